@@ -24,9 +24,9 @@ PID = "C11"
 META = {
     "ready": True,
     "category": "proof",
-    "technique": "Lean 4 proof that a faithful model of the equal? worklist (two stacks, pair-keyed visited set, pointer short cuts, one arm per kind, nested == for keys) computes equality of the unfoldings on every acyclic value graph with arbitrary sharing; hash/equality coherence and finite-map/set/sequence laws as theorems; model tied to /repo by a translator (configuration table) and by running the real code on generated value graphs (DAGs with shared nodes in every position) and collection operation sequences",
-    "level_text": "Theorem eq_structural (SteelVerif/C11/Props.lean): for every acyclic value graph - leaves of every modelled kind, lists, pairs, immutable and mutable vectors, structs, boxes, hash maps and hash sets with arbitrary nesting and arbitrary sharing - the model of RecursiveEqualityHandler (as configured by the code that exists: GenSound.code_cfg_sound) returns exactly equality of the unfoldings; corollaries eq_refl, keys_interchangeable, eq_symm_partial/eq_trans_partial (ONLY values without hash maps/sets: symmetry and transitivity through hash maps and hash sets are not proved); hash_respects_eq (equal unfoldings hash alike, incl. order-independent map/set hashing and the two vector kinds); laws of hash-insert/ref/remove/contains/length, hashset, list/vector/string/bytevector indexing incl. boundary indices => error for all inputs (these are laws of the reference models of the collections; there is no Lean model of the Rust collection primitives, they are tied in by the correspondence only; the clauses no theorem carries are listed at the end of Props.lean). The legacy algorithm (visited keyed by single identities) is kept as Cfg.legacy with not_eq_structural_old / not_hash_respects_eq_old by decide, the list short cut without the next-pointer conjunct (K11j) as Cfg.k11j with not_eq_structural_k11j. The model is tied to crates/steel-core/src/rvals/cycles.rs and rvals.rs on every run by translate/c11_cfg.py and by evaluating the real equal?/==/Hash/hash-contains? on the same graphs.",
-    "level_note": "Assumed about list identities (guard ListSigOK, checked by the run on every graph the harness builds, not proved about im-lists): a node id of the model = the pointer of a list's head cell (two real lists are one node exactly when as_ptr_usize() agrees), and two lists whose first nodes have the same element storage, the same index and the same next node have the same elements. Trusted: Lean kernel (propext, Classical.choice, Quot.sound only), the translator's regexes, harness/driver/comparison. Documented semantics outside the statement: a NaN is not equal? to itself (guard NoNaN), 1 and 1.0 differ. Not proved: symmetry/transitivity of equal? through hash maps and hash sets (tested only: both query orders). Not modelled: accidental 64-bit hash collisions, cyclic values built by mutation (C18), value kinds other than the ones of Model.Leaf/Node (closures, ports, streams, complex numbers: compared by corpus cases only), im/imbl collections themselves (represented by finite maps/sets).",
+    "technique": "Lean 4 proof that a faithful model of the equal? worklist (two stacks, pair-keyed visited set, pointer short cuts, one arm per kind, nested == for keys) computes equality of the unfoldings on every acyclic value graph with arbitrary sharing, and that this is an equivalence relation through hash maps and hash sets; the hash-map / hash-set constructors establish the guards; hash/equality coherence; hash maps keyed by values as finite maps modulo equal?; a model P of the Rust collection primitives (argument conversions, bound checks, loops, byte offsets, imbl's union / symmetric_difference / intersection, ownership branches) proved to answer every operation sequence as the mathematical sequences / finite maps / finite sets do; models tied to /repo by two translators (equality/hash configuration; shape of the primitives) and by running the real code on generated value graphs (DAGs with shared nodes in every position, constructor arguments with equal-but-distinct members, maps keyed by collections) and collection operation sequences",
+    "level_text": "Theorem eq_structural (SteelVerif/C11/Props.lean): for every acyclic value graph - leaves of every modelled kind, lists, pairs, immutable and mutable vectors, structs, boxes, hash maps and hash sets with arbitrary nesting and arbitrary sharing - the model of RecursiveEqualityHandler (as configured by the code that exists: GenSound.code_cfg_sound) returns exactly equality of the unfoldings. eq_refl, eq_symm, eq_trans, eq_equivalence: equal? is an equivalence relation THROUGH hash maps and hash sets (counting argument cover_symm; needs map keys and set members pairwise non-equal?, shown necessary by eq_symm_fails_without_distinct_members and shown to be ESTABLISHED by the constructors: mkSet_guards, mkMap_guards, built_guards - eq_equivalence_built has no guard left for values built by the constructors). NaN policy as theorems for every graph: nan_equal_nothing, container_equal_itself. hash_respects_eq (equal unfoldings hash alike, incl. order-independent map/set hashing and the two vector kinds), keys_interchangeable, and its composition with the map operations: keyed_map_get_insert/get_remove/length_insert/interchangeable/invariant/ofList_last_wins, keyed_set_laws, keyed_set_algebra (hashset-union/-intersection/-difference as imbl computes them and hashset-subset?, on members that are collections) - a hash map / hash set keyed by values (collections included) is a finite map / set modulo equal?. Collections: Prim.lean is a model P of the Rust primitives (lists: list-ref, list-tail, take, drop as the cdr loop of stdlib.scm, last through len-1, first/rest, n-ary append with its empty-first special case, reverse, range; vectors: vector-ref/-set!/-push!/-append; immutable vectors: vector-ref, immutable-vector-push/-set/-take/-drop/-rest/-append with the in-place and the copying branch; byte vectors: bytes, bytes-ref/-set!/-push!/-append with u8/usize conversion; strings: string-ref with its byte-length guard, substring/string->list through fn bounds with char_indices byte offsets, string-append; hash maps: hash constructor, hash-insert (replace), hash-remove, hash-ref/-try-get/-contains?, keys/values, hash-clear, hash-union = imbl's size-directed union under the four ownership branches of hm_union; hash sets: constructor, insert, contains?, subset?, union, intersection, symmetric difference as imbl implements them); theorem prim_refines: ANY operation sequence on P yields, answer by answer (errors at boundary indices included, unordered results up to permutation), what the same sequence yields on the mathematical model S (Coll.*), whose laws (finite map / finite set / sequence laws incl. boundary indices, duplicates, range_spec, keys_spec, subset_spec) are theorems; hash_union_left_biased, substring_char_indices, string_ref_char_index, drop_is_list_tail per primitive. GenSound.code_prims_modelled: the shape of the primitives' bodies re-extracted from /repo on every run is the shape P transcribes. The legacy algorithm is kept as Cfg.legacy with not_eq_structural_old / not_hash_respects_eq_old by decide, the list short cut without the next-pointer conjunct (K11j) as Cfg.k11j with not_eq_structural_k11j. Ties on every run: translate/c11_cfg.py, translate/c11_prims.py; the real equal?/==/Hash/hash-contains? on the same graphs; the members the real (hashset ..)/(hash ..) hold vs the model constructors mkSet/mkMap; gm/gs operation sequences (insert/remove/ref/contains/len, set union/intersection/difference/subset?) on maps/sets keyed by collections; collection operation sequences executed by the driver on P and on S side by side. The clauses no theorem carries are listed at the end of Props.lean.",
+    "level_note": "Assumed about list identities (guard ListSigOK, checked by the run on every graph the harness builds, not proved about im-lists): a node id of the model = the pointer of a list's head cell (two real lists are one node exactly when as_ptr_usize() agrees), and two lists whose first nodes have the same element storage, the same index and the same next node have the same elements. Trusted: Lean kernel (propext, Classical.choice, Quot.sound only), the translators' regexes, harness/driver/comparison. Documented semantics outside eq_structural: a NaN is not equal? to itself (guard NoNaN; the policy itself is nan_equal_nothing / container_equal_itself), 1 and 1.0 differ. Not modelled below the primitives: imbl's HAMT (a hash map is an entry list with replace-on-insert), im-lists' unrolled cells (a list is a sequence; K11h/K11i/K11j are corpus and lx-stream regressions), the UTF-8 encoding itself (strings are character lists with utf8Size byte offsets), accidental 64-bit hash collisions, cyclic values built by mutation (C18; only the self-comparison short cut is a theorem), value kinds other than the ones of Model.Leaf/Node (closures, ports, streams, complex numbers: compared by corpus cases only), eq?/eqv?, primitives outside the operation language Op (improper pairs, vector-fill!/copy!, vector-swap!, pop), aliasing of in-place updates (C03).",
 }
 
 HARNESS = "c11"
@@ -64,6 +64,7 @@ class G:
     def __init__(self):
         self.nodes = []
         self.queries = []      # (op, a, b)
+        self.raw = []          # further protocol lines, tokens = strings and node ids (`gm insert <id> 5`)
 
     def leaf(self, spec):
         self.nodes.append((spec[0], list(spec[1:])))
@@ -135,6 +136,8 @@ class G:
             out.append("def %s%d %s %s" % (prefix, i, k, " ".join(args)))
         for (op, a, b) in self.queries:
             out.append("%s %s%d %s%d" % (op, prefix, a, prefix, b))
+        for toks in self.raw:
+            out.append(" ".join((prefix + str(x)) if isinstance(x, int) else x for x in toks))
         return [l.rstrip() for l in out]
 
 
@@ -514,6 +517,100 @@ def gen_key_cases():
     return [g]
 
 
+def gen_constructor_cases():
+    """`(hashset ..)` / `(hash ..)` whose ARGUMENTS contain members that are equal? but different objects (separately built
+    lists / sets / maps, a mutable and an immutable vector, 0.0 and -0.0), in every position: which object the real
+    collection keeps is what the model constructors mkSet / mkMap must reproduce (`mk` tie), and the result must have
+    pairwise different members (guards KeysDistinct / MembersDistinct, established by the constructors:
+    Props.built_guards)."""
+    import itertools
+    cases = []
+    for kind in ["list", "set", "vecs", "zero", "map", "nested", "struct"]:
+        g = G()
+        one, two = g.leaf(("int", "1")), g.leaf(("int", "2"))
+        z, nz = g.leaf(("flt", str(fbits(0.0)))), g.leaf(("flt", str(fbits(-0.0))))
+        if kind == "struct":
+            e = [g.node("struct", [one], tag=7), g.node("struct", [one], tag=7), g.node("struct", [one], tag=7), g.node("struct", [two], tag=7)]
+        elif kind == "vecs":
+            e = [g.node("vec", [one, two]), g.node("mvec", [one, two]), g.node("vec", [one, two]), g.node("vec", [two, one])]
+        elif kind == "zero":
+            e = [z, nz, z, one]
+        elif kind == "map":
+            e = [g.node("map", [one, two, two, one]), g.node("map", [two, one, one, two]), g.node("map", [one, two, two, one]),
+                 g.node("map", [one, two])]
+        elif kind == "nested":
+            e = [g.node("list", [g.node("set", [one, two])]) for _ in range(3)] + [g.node("list", [g.node("set", [one])])]
+        else:
+            e = [g.node(kind, [one, two]), g.node(kind, [one, two]), g.node(kind, [one, two]), g.node(kind, [two, one])]
+        made = []
+        for perm in itertools.permutations(range(4), 3):
+            made.append(g.node("set", [e[i] for i in perm]))
+            made.append(g.node("map", [x for n, i in enumerate(perm) for x in (e[i], [one, two, z][n])]))
+        made.append(g.node("set", [e[0], e[1], e[2], e[0], e[3], e[1]]))
+        for a in made[:4]:
+            for b in made[:8]:
+                ask(g, a, b)
+        # sets of such sets: the members of the outer set are themselves constructor-built
+        ask(g, g.node("set", made[0:6:2]), g.node("set", made[6:12:2]))
+        cases.append(g)
+    return cases
+
+
+def gen_keyed_cases(rng, quick):
+    """Operation SEQUENCES on a hash map / hash set whose keys are themselves collections (and equal-but-distinct
+    objects, the two vector kinds, 0.0 / -0.0, nested sets and maps): `gm insert K v`, `gm remove K`, `gm ref K`,
+    `gm contains K`, `gm len`, `gs insert K`, `gs contains K`, `gs len`, `gs union|inter|diff|subset[r] K..` (set algebra
+    against a literal set).  Model: `gmInsert` / `gmGet` / `gmRemove` / `gsUnion` / `gsInter` / `gsSymDiff` / `gsSubset` with the
+    key equality of the code; theorems Props.keyed_map_*, keyed_set_laws, keyed_set_algebra: a finite map / set whose keys
+    are taken modulo equal?."""
+    cases = []
+    n = 40 if quick else 400
+    for ci in range(n):
+        g = G()
+        pool = []
+        for kind in rng.sample(INNER, 4):
+            x = mk_inner(g, kind, (1, 2))
+            pool += [x, mk_inner(g, kind, (1, 2)), mk_inner(g, kind, (3, 4))]
+            if rng.random() < 0.5:
+                pool += [mk_outer(g, rng.choice(OUTER), [x, x]), mk_outer(g, "list", [mk_inner(g, kind, (1, 2)), x])]
+        one, two = g.leaf(("int", "1")), g.leaf(("int", "2"))
+        pool += [g.node("vec", [one, two]), g.node("mvec", [one, two]), g.leaf(("flt", str(fbits(0.0)))),
+                 g.leaf(("flt", str(fbits(-0.0)))), one, g.leaf(("str", "97")), g.leaf(("sym", "97")), g.leaf(("int", "1"))]
+        g.raw.append(["gm", "new"])
+        g.raw.append(["gs", "new"])
+        for _ in range(30 if quick else 60):
+            k = rng.choice(pool)
+            r = rng.random()
+            if r < 0.3:
+                g.raw.append(["gm", "insert", k, str(rng.randint(0, 99))])
+            elif r < 0.42:
+                g.raw.append(["gm", "remove", k])
+            elif r < 0.62:
+                g.raw.append(["gm", "ref", k])
+            elif r < 0.7:
+                g.raw.append(["gm", "contains", k])
+            elif r < 0.73:
+                g.raw.append(["gm", "len"])
+            elif r < 0.75:
+                # hash-union with a literal map of 0..3 entries (equal-but-distinct keys among them), either side
+                lit = []
+                for _ in range(rng.randint(0, 3)):
+                    lit += [rng.choice(pool), str(rng.randint(100, 199))]
+                g.raw.append(["gm", rng.choice(["union", "unionr"])] + lit)
+            elif r < 0.84:
+                g.raw.append(["gs", "insert", k])
+            elif r < 0.90:
+                g.raw.append(["gs", "contains", k])
+            elif r < 0.98:
+                # the set algebra against a literal set of 0..4 members (equal-but-distinct objects among them)
+                g.raw.append(["gs", rng.choice(["union", "unionr", "inter", "interr", "diff", "diffr", "subset", "subsetr"])]
+                             + [rng.choice(pool) for _ in range(rng.randint(0, 4))])
+            else:
+                g.raw.append(["gs", "len"])
+        cases.append(g)
+    return cases
+
+
 # ------------------------------------------------------------------------------------------------
 # running graph cases
 # ------------------------------------------------------------------------------------------------
@@ -579,6 +676,13 @@ def judge_graph(ctx, label, g, hin, hl, dl, stats):
                 if "same=true" not in m:
                     probs.append(("model", "`%s`: the real object has the members `%s`, the model constructor mkSet/mkMap "
                                            "(insertion with the key equality of the code) yields other ones" % (q, r)))
+            continue
+        if op in ("gm", "gs"):
+            stats["evaluations"] += 1
+            stats["keyed_ops"] += 1
+            if r != m:
+                probs.append(("violation", "`%s`: the real %s keyed by values answers `%s`, the finite map/set whose keys are taken "
+                                           "modulo equal? answers `%s`" % (q, "hash map" if op == "gm" else "hash set", r, m)))
             continue
         d = kv(m)
         stats["evaluations"] += 1
@@ -840,6 +944,28 @@ def gen_coll_seq(rng, reg, length):
                 ops.append("cv append3 %d " % len(b) + " ".join(str(x) for x in b + seq()))
             else:
                 ops.append("cv len")
+    elif reg == "ci":
+        ops.append("ci new " + " ".join(str(x) for x in seq()))
+        for _ in range(length):
+            r = rng.random()
+            u = rng.choice(["", "_u"])          # `_u`: the primitive gets a uniquely owned copy (its in-place branch)
+            if r < 0.25:
+                ops.append("ci ref %d" % ival())
+            elif r < 0.4:
+                ops.append("ci set%s %d %d" % (u, ival(), rng.randint(0, 99)))
+            elif r < 0.55:
+                ops.append("ci take%s %d" % (u, ival(-1, 7)))
+            elif r < 0.7:
+                ops.append("ci drop%s %d" % (u, ival(-1, 7)))
+            elif r < 0.78:
+                ops.append("ci rest")
+            elif r < 0.88:
+                ops.append("ci push %d" % rng.randint(0, 99))
+            elif r < 0.93:
+                b = seq()
+                ops.append("ci append3 %d " % len(b) + " ".join(str(x) for x in b + seq()))
+            else:
+                ops.append("ci len")
     elif reg == "cb":
         ops.append("cb new " + " ".join(str(x) for x in seq(None, 0, 255)))
         for _ in range(length):
@@ -887,7 +1013,7 @@ def steel_of(op):
     t = op.split()
     reg, o, a = t[0], t[1], t[2:]
     A = " ".join(a)
-    state = {"cm": "(hash->list cm)", "cs": "(hashset->list cs)", "cl": "cl", "cv": "(vector->list cv)",
+    state = {"cm": "(hash->list cm)", "cs": "(hashset->list cs)", "cl": "cl", "cv": "(vector->list cv)", "ci": "(immutable-vector->list ci)",
              "cb": "(bytes->list cb)", "ct": "(map char->integer (string->list ct))"}[reg]
 
     def upd(expr):
@@ -946,6 +1072,8 @@ def steel_of(op):
             return upd("(vector-append (vector %s) cv (vector %s) (vector))" % (bef, aft))
         if reg == "cb":
             return upd("(bytes-append (bytes %s) cb (bytes) (bytes %s))" % (bef, aft))
+        if reg == "ci":
+            return upd("(immutable-vector-append (immutable-vector %s) ci (immutable-vector %s) (immutable-vector))" % (bef, aft))
         if reg == "ct":
             mk = lambda x: "(list->string (map integer->char (list %s)))" % x
             return upd("(string-append %s ct \"\" %s)" % (mk(bef), mk(aft)))
@@ -972,6 +1100,14 @@ def steel_of(op):
                 "set": ("(begin (vector-set! cv %s) %s)" % (A, state), "state"),
                 "push": ("(begin (vector-push! cv %s) %s)" % (A, state), "state"), "len": ("(vector-length cv)", "num"),
                 "append": upd("(vector-append cv (vector %s))" % A)}[o]
+    if reg == "ci":
+        # `_u`: a fresh, uniquely owned copy is handed to the primitive (Gc::get_mut succeeds: the in-place branch);
+        # otherwise the global `ci` is a second owner (the copying branch)
+        me = "(apply immutable-vector (immutable-vector->list ci))" if own == "u" else "ci"
+        return {"new": upd("(immutable-vector %s)" % A), "ref": ("(vector-ref ci %s)" % A, "res"),
+                "set": upd("(immutable-vector-set %s %s)" % (me, A)), "take": upd("(immutable-vector-take %s %s)" % (me, A)),
+                "drop": upd("(immutable-vector-drop %s %s)" % (me, A)), "rest": upd("(immutable-vector-rest ci)"),
+                "push": upd("(immutable-vector-push ci %s)" % A), "len": ("(vector-length ci)", "num")}[base]
     if reg == "cb":
         return {"new": upd("(bytes %s)" % A), "ref": ("(bytes-ref cb %s)" % A, "res"),
                 "set": ("(begin (bytes-set! cb %s) %s)" % (A, state), "state"),
@@ -1015,7 +1151,7 @@ def canon_real(reg, how, out):
 
 
 PRELUDE = ["coll (define cm2 (hash))", "coll (define cm3 (hash))", "coll (define cs2 (hashset))",
-           "coll (define cm (hash))", "coll (define cs (hashset))", "coll (define cl (list))", "coll (define cv (vector))",
+           "coll (define cm (hash))", "coll (define cs (hashset))", "coll (define cl (list))", "coll (define cv (vector))", "coll (define ci (immutable-vector))",
            "coll (define cb (bytes))", "coll (define ct \"\")"]
 
 
@@ -1041,7 +1177,7 @@ def run_coll_batch(seqs):
 
 
 def run_coll(ctx, rng, nseq, length, stats):
-    regs = ["cm", "cs", "cl", "cv", "cb", "ct"]
+    regs = ["cm", "cs", "cl", "cv", "ci", "cb", "ct"]
     seqs = [gen_coll_seq(rng, regs[i % len(regs)], length) for i in range(nseq)]
     # directed boundary cases first
     seqs.insert(0, ["cl new", "cl first", "cl rest", "cl last", "cl ref 0", "cl take 0", "cl tail 0", "cl tail 1", "cl len",
@@ -1093,6 +1229,10 @@ def run_coll(ctx, rng, nseq, length, stats):
                     "ct sub 4 4", "ct sub 2 3", "ct sub1 2", "ct new 233 233", "ct sub1 3", "ct sub1 4", "ct sub1 5", "ct sub1 -1",
                     "ct tolist", "ct tolist 1", "ct tolist 1 2", "ct tolist 2 1", "ct tolist 3", "ct new 128512 97 128512", "ct sub1 1",
                     "ct tolist 0 1", "ct append3 1 955 233", "ct sub 1 4", "ct new", "ct sub1 0", "ct tolist", "ct sub1 1"])
+    seqs.insert(0, ["ci new 1 2 3", "ci ref 3", "ci ref 2", "ci ref -1", "ci set 3 9", "ci set_u 3 9", "ci set 2 9", "ci set_u 0 8", "ci take 5",
+                    "ci take_u 5", "ci take 2", "ci take_u 0", "ci new 1 2 3", "ci drop 5", "ci new 1 2 3", "ci drop_u 5", "ci new 1 2 3",
+                    "ci drop 3", "ci rest", "ci new 1 2 3", "ci drop_u 1", "ci take -1", "ci drop -1", "ci rest", "ci rest", "ci rest", "ci len",
+                    "ci push 4", "ci append3 1 0 9", "ci append3 0", "ci len"])
     seqs.insert(0, ["cv new 1 2", "cv append 3 4", "cv append", "cv append3 1 0 9", "cv append3 0", "cv len", "cv ref 5",
                     "cb new 1 2", "cb push 255", "cb push 256", "cb push -1", "cb len", "cb append3 1 9 8", "cb append3 0"])
     chunk = 50
@@ -1132,7 +1272,7 @@ def run_coll(ctx, rng, nseq, length, stats):
 def run(ctx):
     stats = {"evaluations": 0, "eq": 0, "eq_true": 0, "eq_shared": 0, "eq_legacy_would_fail": 0, "hq": 0, "hq_true": 0,
              "key": 0, "key_true": 0, "graphs": 0, "nodes": 0, "max_nodes": 0, "kinds": {}, "samples": [], "pending": [],
-             "coll_ops": 0, "coll_errors": 0, "coll_kinds": {}, "corpus_cases": 0, "constructor_ties": 0}
+             "coll_ops": 0, "coll_errors": 0, "coll_kinds": {}, "corpus_cases": 0, "constructor_ties": 0, "keyed_ops": 0}
     rng = random.Random(ctx.seed * 7919 + 11)
 
     # translate
@@ -1146,12 +1286,26 @@ def run(ctx):
     if rc != 0:
         stats["pending"].append(("C11-translator.txt",
                                  "# translate/c11_cfg.py no longer understands rvals/cycles.rs / rvals.rs:\n# %s\n" % tout.strip()[-600:]))
+    # translate 2: the shape of the collection primitives that the model P (Prim.lean) transcribes
+    rc2, tout2 = C.sh(["python3", os.path.join(C.VERIF, "translate", "c11_prims.py")], timeout=60)
+    extracted2 = None
+    if rc2 == 0:
+        try:
+            extracted2 = json.loads(tout2.strip().splitlines()[-1])
+        except ValueError:
+            rc2 = 3
+    if rc2 != 0:
+        stats["pending"].append(("C11-translator-prims.txt",
+                                 "# translate/c11_prims.py no longer understands the bodies of the collection primitives "
+                                 "(primitives/{lists,vectors,hashmaps,hashsets,strings,bytevectors}.rs, stdlib.scm `drop`):\n# %s\n"
+                                 % tout2.strip()[-600:]))
     # prove
     pr = C.prove(ctx, "C11", ["SteelVerif.C11.GenSound", DRIVER])
     ok, log = C.build_harness(ctx, [HARNESS])
     cov_base = {"obligations": pr["obligations"], "discharged": pr["discharged"],
                 "checker_cmd": "cd lean && lake build SteelVerif.C11.Props SteelVerif.C11.GenSound && lake env lean SteelVerif/C11/Audit.lean",
-                "trusted_base": C.TRUSTED_BASE + ["translate/c11_cfg.py (regex extraction of the equality/hash configuration)"]}
+                "trusted_base": C.TRUSTED_BASE + ["translate/c11_cfg.py (regex extraction of the equality/hash configuration)",
+                                                "translate/c11_prims.py (regex extraction of the shape of the collection primitives)"]}
     if not ok:
         ctx.violation("C11-harness-build.txt", "the harness no longer builds against /repo:\n" + log, no_input=True)
         ctx.coverage = cov_base
@@ -1168,6 +1322,8 @@ def run(ctx):
     run_graph_cases(ctx, gen_leaf_cases(), "leaf", stats, batch_size=20)
     run_graph_cases(ctx, gen_key_cases(), "keys", stats, batch_size=1)
     run_graph_cases(ctx, gen_cross_kind_cases(), "xkind", stats, batch_size=1)
+    run_graph_cases(ctx, gen_constructor_cases(), "ctor", stats, batch_size=1)
+    run_graph_cases(ctx, gen_keyed_cases(rng, quick), "keyed", stats, batch_size=4)
     dag = gen_dag_cases(rng, quick)
     run_graph_cases(ctx, dag, "dag", stats, batch_size=4)
     run_graph_cases(ctx, gen_shared_node_cases(rng, quick), "lx", stats, batch_size=1)
@@ -1182,7 +1338,7 @@ def run(ctx):
     ctx.log("graphs=%d queries=%d (eq %d, of which shared %d, legacy algorithm wrong on %d)" % (
         stats["graphs"], stats["evaluations"], stats["eq"], stats["eq_shared"], stats["eq_legacy_would_fail"]))
     # collections
-    run_coll(ctx, rng, 120 if quick else 3000, 12 if quick else 40, stats)
+    run_coll(ctx, rng, 600 if quick else 3000, 14 if quick else 40, stats)
     ctx.log("collection ops=%d (errors %d)" % (stats["coll_ops"], stats["coll_errors"]))
 
     # decide
@@ -1190,6 +1346,10 @@ def run(ctx):
         body = "proof obligations of SteelVerif.C11 that no longer check:\n" + "\n".join("%s: %s" % f for f in pr["failed"]) + "\n"
         if extracted:
             body += "configuration extracted from /repo: %s\n" % json.dumps(extracted.get("cfg"))
+        if extracted2:
+            body += "shape of the primitives extracted from /repo (facts that are not as the model P transcribes them: %s)\n" % json.dumps(
+                {k: v for k, v in extracted2.get("shape", {}).items()
+                 if v is False or (k == "unionSwapped" and v != 0) or (k in ("unionBranches", "unionLeftRight") and v != 4)})
         ctx.violation("C11-proof-broken.txt", body, no_input=True)
     if stats["pending"] and not ctx.violations:
         name, body = stats["pending"][0]
@@ -1201,6 +1361,9 @@ def run(ctx):
         "evaluations": stats["evaluations"] + stats["coll_ops"] + stats["corpus_cases"],
         "distinct_nontrivial": stats["eq_shared"],
         "rule": "graph cases = every leaf kind x leaf kind at top level and inside every container kind; cross-kind equal values (mutable vs immutable vector) as elements of every container kind at depth 1 and 2; "
+                "constructor family: (hashset ..)/(hash ..) over every 3-permutation of {x, equal copy, equal copy, different} for 7 member kinds incl. vec/mvec and 0.0/-0.0 (members the real object holds vs mkSet/mkMap, after EVERY set/map definition of every graph); "
+                "keyed family: 30-60 random gm/gs operations (insert/remove/ref/contains/len, set union/intersection/difference/subset? against literal sets) with keys drawn from collections, equal-but-distinct copies, nested containers, the two vector kinds, 0.0/-0.0; "
+                "collection sequences: random ops per register (hash map, hash set, list, mutable vector, immutable vector with owned/shared argument, byte vector, string over {a,b,e-acute,lambda,emoji,space}) incl. drop/range/n-ary append/keys/values/subset? both ways/substring to the end/string->list ranges, each executed on the model P of the primitives and on the mathematical model S; "
                 "DAG family: outer container x inner container x every assignment of {shared object, second shared object, "
                 "fresh equal copy, fresh different value} to 2..3 slots on both sides (both query orders); collections as "
                 "keys/members; shared-node lists: append/cons/cdr/list-tail/take/drop/reverse/map/range over common base lists of "
@@ -1217,6 +1380,8 @@ def run(ctx):
         "corpus_cases": stats["corpus_cases"],
         "collection_ops": stats["coll_ops"], "collection_errors_hit": stats["coll_errors"], "collection_op_kinds": stats["coll_kinds"],
         "translator": extracted,
+        "translator_prims": extracted2,
+        "constructor_ties": stats["constructor_ties"], "keyed_map_set_ops": stats["keyed_ops"],
         "axioms": pr.get("axioms", {}),
         "proof_failures": ["%s: %s" % f for f in pr["failed"]],
         "correspondence_disagreements": len(stats["pending"]),
@@ -1231,7 +1396,7 @@ def run(ctx):
 def replay(ctx, path):
     lines = [l.rstrip("\n") for l in open(path) if l.strip() and not l.startswith("#")]
     C.build_harness(ctx, [HARNESS])
-    if lines and lines[0].split()[0] in ("cm", "cs", "cl", "cv", "cb", "ct"):
+    if lines and lines[0].split()[0] in ("cm", "cs", "cl", "cv", "ci", "cb", "ct"):
         res = run_coll_batch([lines])
         if "error" in res:
             print(res)
